@@ -75,7 +75,7 @@ SPEC = {
         'AITB.WitnessLP.pow2_pos', 'AITB.WitnessLP.scaleOfExp_pow2', 'AITB.WitnessLP.witnessScale_pow2', 'AITB.WitnessLP.witnessScale_pos',
         'AITB.WitnessLP.dot_scaleVec', 'AITB.WitnessLP.addRows_from', 'AITB.WitnessLP.posed_witnessOracle', 'AITB.WitnessLP.scaleOf_pos',
         'AITB.WitnessLP.feasible_scale', 'AITB.WitnessLP.optimum_scale', 'AITB.WitnessLP.witness_scale', 'AITB.WitnessLP.exists_margin',
-        'AITB.WitnessLP.witnessOracle_some', 'AITB.WitnessLP.witnessOracle_none', 'AITB.WitnessLP.pow2_ilogb_le', 'AITB.WitnessLP.inv_scaleOfExp_le',
+        'AITB.WitnessLP.exists_lower', 'AITB.WitnessLP.feasible_of_free', 'AITB.WitnessLP.feasible_asFound_iff', 'AITB.WitnessLP.witnessOracle_some', 'AITB.WitnessLP.witnessOracle_none', 'AITB.WitnessLP.pow2_ilogb_le', 'AITB.WitnessLP.inv_scaleOfExp_le',
         'AITB.WitnessLP.inv_witnessScale_le', 'AITB.WitnessLP.maxAbsV_le', 'AITB.WitnessLP.inv_scaleOf_le',
         'AITB.Prune.prunerLoop_oracle_congr', 'AITB.Prune.pruner_oracle_congr', 'AITB.Prune.pruner_lp_spec',
     ],
